@@ -141,3 +141,174 @@ A1 = make("r1-slice", "tup:slice", "none")
 A2 = make("r1-slice-region", "tup:slice", "tup:slice")
 A3 = make("r1-int", "tup:int", "none")
 A4 = make("r1-int-region", "tup:int", "tup:slice")
+
+
+# ---------------------------------------------------------------------------
+# The reads themselves: slices_from_chunks tiles the (effective) axis, and _layer offsets every block's slice by the
+# start of the deferred region.  Together with the region invariant kept by _accept_slice above this gives, for all
+# inputs at rank 1: every request is an in-bounds unit-step basic slice selecting exactly the block's elements.
+# ---------------------------------------------------------------------------
+CU = "dask_array/_core_utils.py"
+
+
+@contract(f"{CU}::slices_from_chunks", spec="rank1", props=["C24", "C03"])
+class slices_from_chunks_r1:
+    """one 1-tuple per block, in block order; block k's slice is [c_0+..+c_{k-1}, c_0+..+c_k) with step None"""
+    params = {"chunks": "tup:seq"}
+    ghosts = {"k": "int"}
+    result = "tupseq:slice"
+
+    def call_patterns(result, chunks, k):
+        # the quantified postcondition is instantiated wherever the caller reads the k-th slice's start
+        return {"tiles": [z3.Select(result.comps[0].a["v0"], k)]}
+
+    def requires(chunks):
+        return S.chunking(S.item(chunks, 0))
+
+    def ensures(result, chunks, k):
+        c = S.item(chunks, 0)
+        return {
+            "count": S.slen(result) == S.slen(c),
+            "tiles": S.lazy_implies(S.And(0 <= k, k < S.slen(c), S.slen(result) == S.slen(c)), lambda: S.slice_eq(
+                S.item(S.elem(result, k), 0), S.mkslice(S.prefix(c, k), S.prefix(c, k) + S.at(c, k), None))),
+        }
+
+    def ghost_domain(chunks):
+        return {"k": range(0, len(chunks[0]))}
+
+    def domain(tier, rng):
+        from contracts.slicing import chunkings
+        for n, c in chunkings(7 if tier == "quick" else 10):
+            yield {"chunks": (c,)}
+
+
+@contract(f"{FA}::FromArray._layer", spec="region-offsets-r1", props=["C24"])
+class layer_region_offsets:
+    """the read slices of a FromArray with a deferred unit-step region: block k reads
+    [region.start + c_0+..+c_{k-1}, region.start + c_0+..+c_k), a basic in-bounds slice of the source"""
+    fragment = {"first": "slices = slices_from_chunks(self.chunks)", "last": "if region is not None:"}
+    params = {"self": "obj:FromArray", "region": "tup:slice"}
+    ghosts = {"k": "int"}
+    fields = {"FromArray": {"array": "obj:Source", "chunks": "tup:seq"}, "Source": {"shape": "tup:int"}}
+
+    def requires(self, region):
+        c = S.item(self.get("chunks"), 0)
+        n = S.item(self.get("array").get("shape"), 0)
+        r = S.item(region, 0)
+        # the class invariant established by _accept_slice (unit-step region; chunks add up to what it selects)
+        return S.And(n >= 0, S.chunking(c), S.step_ok(r), unit_step(r), S.ssum(c) == S.nsel(r, n))
+
+    def facts(self, region):
+        c = S.item(self.get("chunks"), 0)
+        return [("prefix_nonneg", c), ("mono_prefix", c)]
+
+    def ensures(result, self, region, k):
+        c = S.item(self.get("chunks"), 0)
+        n = S.item(self.get("array").get("shape"), 0)
+        rs = S.idx3(S.item(region, 0), n)[0]
+        inr = S.And(0 <= k, k < S.slen(c), S.slen(result.slices) == S.slen(c))
+
+        def sl():
+            return S.parts(S.item(S.elem(result.slices, k), 0))
+
+        return {
+            "count": S.slen(result.slices) == S.slen(c),
+            "offset": S.lazy_implies(inr, lambda: S.And(
+                S.Not(S.is_none(sl()[0])), S.Not(S.is_none(sl()[1])), S.is_none(sl()[2]),
+                S.val(sl()[0], 0) == rs + S.prefix(c, k), S.val(sl()[1], 0) == rs + S.prefix(c, k) + S.at(c, k))),
+            "in-bounds": S.lazy_implies(inr, lambda: S.And(0 <= S.val(sl()[0], 0), S.val(sl()[0], 0) <= S.val(sl()[1], 0),
+                                                          S.val(sl()[1], 0) <= n)),
+        }
+
+    def ghost_domain(self, region):
+        return {"k": range(0, len(self.chunks[0]))}
+
+    def domain(tier, rng):
+        from pyvc.concrete import Rec
+        from contracts.slicing import chunkings
+        top = 6 if tier == "quick" else 8
+        for n in range(0, top + 1):
+            for a in [None] + list(range(-n - 1, n + 2)):
+                for b in [None] + list(range(-n - 1, n + 2)):
+                    for st in (None, 1):
+                        r = slice(a, b, st)
+                        m = len(range(*r.indices(n)))
+                        for tot, c in chunkings(m):
+                            if tot == m and len(c) <= 4:
+                                yield {"self": Rec(chunks=(c,), array=Rec(shape=(n,))), "region": (r,)}
+
+
+@contract(f"{FA}::FromArray._layer", spec="no-region-r1", props=["C24"])
+class layer_no_region:
+    """without a deferred region the read slices are the tiling of the source axis itself"""
+    fragment = {"first": "slices = slices_from_chunks(self.chunks)", "last": "if region is not None:"}
+    params = {"self": "obj:FromArray", "region": "none"}
+    ghosts = {"k": "int"}
+    fields = {"FromArray": {"array": "obj:Source", "chunks": "tup:seq"}, "Source": {"shape": "tup:int"}}
+
+    def requires(self, region):
+        c = S.item(self.get("chunks"), 0)
+        n = S.item(self.get("array").get("shape"), 0)
+        return S.And(n >= 0, S.chunking(c), S.ssum(c) == n)
+
+    def facts(self, region):
+        c = S.item(self.get("chunks"), 0)
+        return [("prefix_nonneg", c), ("mono_prefix", c)]
+
+    def ensures(result, self, region, k):
+        c = S.item(self.get("chunks"), 0)
+        n = S.item(self.get("array").get("shape"), 0)
+        inr = S.And(0 <= k, k < S.slen(c), S.slen(result.slices) == S.slen(c))
+
+        def sl():
+            return S.parts(S.item(S.elem(result.slices, k), 0))
+
+        return {
+            "count": S.slen(result.slices) == S.slen(c),
+            "tiles": S.lazy_implies(inr, lambda: S.And(
+                S.Not(S.is_none(sl()[0])), S.Not(S.is_none(sl()[1])), S.is_none(sl()[2]),
+                S.val(sl()[0], 0) == S.prefix(c, k), S.val(sl()[1], 0) == S.prefix(c, k) + S.at(c, k))),
+            "in-bounds": S.lazy_implies(inr, lambda: S.And(0 <= S.val(sl()[0], 0), S.val(sl()[0], 0) <= S.val(sl()[1], 0),
+                                                          S.val(sl()[1], 0) <= n)),
+        }
+
+    def ghost_domain(self, region):
+        return {"k": range(0, len(self.chunks[0]))}
+
+    def domain(tier, rng):
+        from pyvc.concrete import Rec
+        from contracts.slicing import chunkings
+        for tot, c in chunkings(7 if tier == "quick" else 9):
+            yield {"self": Rec(chunks=(c,), array=Rec(shape=(tot,))), "region": None}
+
+
+def _effective_shape_contract(spec, region_ty):
+    @contract(f"{FA}::FromArray._effective_shape", spec=spec, props=["C24", "C03"])
+    class effective_shape:
+        """the advertised shape of a source read: the source's shape, or the number of positions the deferred region
+        selects on each axis (the `eff == nsel(region, n)` part of the region invariant used by _accept_slice and _layer)"""
+        params = {"self": "obj:FromArray"}
+        result = "tup:int"
+        fields = {"FromArray": {"array": "obj:Source", "_region": region_ty}, "Source": {"shape": "tup:int"}}
+
+        def requires(self):
+            n = S.item(self.get("array").get("shape"), 0)
+            reg = self.get("_region")
+            pre = [n >= 0]
+            if isinstance(reg, TupV):
+                pre.append(S.step_ok(reg.items[0]))
+            return S.And(pre)
+
+        def ensures(result, self):
+            n = S.item(self.get("array").get("shape"), 0)
+            reg = self.get("_region")
+            if isinstance(reg, TupV):
+                return {"selected-length": S.item(result, 0) == S.nsel(reg.items[0], n)}
+            return {"source-shape": S.item(result, 0) == n}
+
+    effective_shape.__name__ = f"effective_shape__{spec}"
+    return effective_shape
+
+
+ES1 = _effective_shape_contract("r1-region", "tup:slice")
+ES2 = _effective_shape_contract("r1-none", "none")
